@@ -40,6 +40,9 @@ func scratchBase() string {
 }
 
 func caseLines(s scn, ro *runOut) []string {
+	if s.Writer == "unpack-zip-big" {
+		return bigLines(s, ro)
+	}
 	lines := []string{s.line()}
 	if ro.err != "" || ro.res == nil {
 		return lines
@@ -162,11 +165,30 @@ func (e *c17exec) Do(line string) string {
 		if ro.err != "" {
 			return "harness-error " + strings.ReplaceAll(ro.err, "\n", " ")
 		}
+		if ro.big != nil {
+			return "ok"
+		}
 		e.init = map[string]bool{}
 		for _, x := range ro.res.Init {
 			e.init[x] = true
 		}
 		return "ok"
+	}
+	if e.ro != nil && e.ro.big != nil {
+		// what the real unpacking did with the one big member
+		switch f[0] {
+		case "zipcopy":
+			if e.ro.big.failed == 1 {
+				return "written=- failed=1"
+			}
+			return fmt.Sprintf("written=%d failed=0", e.ro.big.member)
+		case "unpack":
+			if e.ro.big.published == 1 {
+				return "publish"
+			}
+			return "no-publish"
+		}
+		return "bad-op"
 	}
 	if e.ro == nil || e.ro.res == nil {
 		return "no-run"
@@ -537,6 +559,28 @@ func monitor(c hxlib.Case, outs []string) (vs []hxlib.Violation) {
 	if err != nil {
 		return nil
 	}
+	if s.Writer == "unpack-zip-big" {
+		// the property on the big-member run: a published directory holds the member completely
+		var size int64 = -1
+		published := false
+		written := ""
+		for i, l := range c.Lines {
+			f := strings.Fields(l)
+			switch f[0] {
+			case "zipcopy":
+				fmt.Sscanf(f[1], "size=%d", &size)
+				written = outs[i]
+			case "unpack":
+				published = outs[i] == "publish"
+			}
+		}
+		if published && written != fmt.Sprintf("written=%d failed=0", size) {
+			return []hxlib.Violation{{Sig: "C17:unpack-zip:member-cut-at-size-limit",
+				What: fmt.Sprintf("archive with one member of %d bytes (MaxUnpackSize %+d): UnpackResources published the directory, but of the member it holds: %s", size, size-bigSize("at-limit"), written),
+				Lines: c.Lines, Output: outs}}
+		}
+		return nil
+	}
 	var d destInfo
 	haveDest := false
 	initial := map[string]string{}
@@ -711,7 +755,7 @@ func generate(r *hxlib.Run, emit func(hxlib.Case)) {
 		n := ro.res.NKill
 		limit := r.Budget(14, 400)
 		if strings.Contains(s.Srv, "+") {
-			limit = r.Budget(8, 40) // every run of a retry scenario waits out the real back-off (1 s) of the updater
+			limit = r.Budget(6, 40) // every run of a retry scenario waits out the real back-off (1 s) of the updater
 		}
 		ks := []int{}
 		if n <= limit {
@@ -746,7 +790,10 @@ func generate(r *hxlib.Run, emit func(hxlib.Case)) {
 		cacheMu.Lock()
 		runCache[lines[0]] = ro
 		cacheMu.Unlock()
-		nt := ro.res != nil && len(ro.res.Events) > 0
+		nt := (ro.res != nil && len(ro.res.Events) > 0) || ro.big != nil
+		if ro.big != nil {
+			r.Count("big-member:" + s.Var)
+		}
 		r.Count("writer:" + s.Writer)
 		r.Count("old:" + s.Old)
 		r.Count("tmp:" + s.TmpMode)
@@ -832,6 +879,11 @@ func main() {
 	if len(os.Args) >= 3 && os.Args[1] == "__writer" {
 		os.Exit(runWriter(os.Args[2]))
 	}
+	if len(os.Args) >= 4 && os.Args[1] == "__bigzip" {
+		var n int64
+		fmt.Sscan(os.Args[3], &n)
+		os.Exit(runBigZip(os.Args[2], n))
+	}
 	if len(os.Args) >= 3 && os.Args[1] == "__trace" {
 		os.Exit(runTrace(os.Args[2]))
 	}
@@ -865,7 +917,7 @@ func main() {
 	}
 	hxlib.Main(&hxlib.Harness{
 		Prop:     "C17",
-		Rule:     "a case is one run of one real writer (renameio.WriteFile/Symlink, utils.CreateAtomic/CopyFileAtomic/ReplaceFileAtomic, fstree.Put, updater download via DownloadUpdates against an in-process HTTP server incl. signed and missing-signature downloads, updater.UnpackResources, File.Unpack) in a child process under a ptrace system-call stepper: once to completion and once per crash point k (killed immediately before its k-th file-system-mutating system call; all k when there are few, first/last/random k otherwise), over old states absent / present / present read-only / symlink / directory, contents empty / tiny / small / chunk-boundary sizes / medium / multi-MiB (random or with magic prefixes), TMPDIR on the same file system / on another file system / unusable / explicit temp dir (same and other file system), failing operations (reader error, truncated HTTP body, 404, corrupt gzip / zip, missing source) and history (the same operation killed earlier on the same sandbox). Lines: initial snapshot, translated system calls, final snapshot; per call the errno and the destination as a reader sees it are compared between the kernel and the Lean file-system model, the final snapshot likewise, the Lean safePublish / onlyTemp checkers run on the actual call sequence, and the run must be a path of the Lean program of the writer with the same return value. Non-trivial: the run issued at least one mutating call; distinct by the hash of the lines.",
+		Rule:     "a case is one run of one real writer (renameio.WriteFile/Symlink, utils.CreateAtomic/CopyFileAtomic/ReplaceFileAtomic, fstree.Put, updater download via DownloadUpdates against an in-process HTTP server incl. signed and missing-signature downloads, updater.UnpackResources, File.Unpack) in a child process under a ptrace system-call stepper: once to completion and once per crash point k (killed immediately before its k-th file-system-mutating system call; all k when there are few, first/last/random k otherwise), over old states absent / present / present read-only / symlink / directory, contents empty / tiny / small / chunk-boundary sizes / medium / multi-MiB (random or with magic prefixes), TMPDIR on the same file system / on another file system / unusable / explicit temp dir (same and other file system), failing operations (reader error, missing source; for downloads an in-process server playing per attempt one of 27 answers — body truncated by orderly close or reset at byte 0 / 1 / half / last / random under Content-Length, chunked, close-delimited or HTTP/1.0 framing, body longer or shorter than announced, complete but unannounced, gzip Content-Encoding complete or cut, 204 / 206 / 301 / 302-to-complete / 304 / 404 / 500 / 503, no answer — alone or followed by a retry with a complete answer, through DownloadUpdates and GetFile, unsigned or with signature verification: valid, body not matching the signature under require / warn, unusable signature, no signature; for unpacking gzip files with corrupt trailer / corrupt data / cut in the data / cut in the trailer / trailing garbage / no gzip header and zip archives with a corrupt member / a member shorter than its header / cut in the middle) and history (the same operation killed earlier on the same sandbox). Lines: initial snapshot, translated system calls, final snapshot; per call the errno and the destination as a reader sees it are compared between the kernel and the Lean file-system model, the final snapshot likewise, the Lean safePublish / onlyTemp checkers run on the actual call sequence, and the run must be a path of the Lean program of the writer with the same return value; for downloads that program is derived by the model from the server behaviour (transport + fetchDecision over the guards regenerated from updater/fetch.go), and on complete runs what the client saw of every response (status, ContentLength, bytes read, read error — observed by a wrapper around http.DefaultTransport), the bytes written and the publish / abort outcome of every attempt, and the publish decision of File.Unpack / unpackZipArchive are compared with the model as well. Non-trivial: the run issued at least one mutating call; distinct by the hash of the lines.",
 		Generate: generate,
 		NewExec:  func(*hxlib.Run) hxlib.Exec { return &c17exec{} },
 		Monitor:  monitor,
